@@ -463,6 +463,10 @@ def subterms(t, acc=None, seen=None):
 def mk(name, kind, assumptions, goal, line=0, text=""):
     ob = Obligation(name, kind, goal, assumptions, line, text)
     ob.defs = []
+    # syntactic shape obligations (decorator body, constructor wiring): a mismatch means "shape not recognised", which
+    # is no refutation; the registry KEY comparisons are facts about literals and stay definite
+    ob.inconclusive = kind == "static" and "/static/keys/" not in name and "/static/entry/" not in name \
+        and "/static/registry/present" not in name
     return ob
 
 
